@@ -68,11 +68,13 @@ var rpcClasses = []rpcClass{
 	{"remove-absent-id", "error", "Remove of a well-formed id that is not stored"},
 	{"insert-existing-id", "error", "Insert of an id that is already stored"},
 	{"remove-twice", "error", "Insert, Remove, Remove and Update of the same id"},
+	{"insert-oversized-metadata", "error", "Insert with a 300-byte metadata key (the snapshot format holds 255)"},
+	{"update-oversized-metadata", "error", "Update of a stored id with a 70000-byte metadata value; the item must stay"},
 	{"batch-duplicate-and-absent", "ok", "BatchUpdate / BatchRemove mixing duplicates and absent ids"},
 }
 
 func runRpc(c *Ctx) {
-	c.Stats.Rule = "one child process per request class (34 classes: malformed / truncated ids on every write RPC incl. the node-to-node PartitionBatch* RPCs, wrong and zero dimensions, zero partition / replica counts, unknown metric, k = 0 and k = 2^32-1, non-finite numbers, missing metadata, oversized batches, unknown ids) against a real single-node stack on disk, followed by a liveness probe and a restart that replays everything the requests left in the logs; every class is a distinct non-trivial case"
+	c.Stats.Rule = "one child process per request class (36 classes: malformed / truncated ids on every write RPC incl. the node-to-node PartitionBatch* RPCs, wrong and zero dimensions, zero partition / replica counts, unknown metric, k = 0 and k = 2^32-1, non-finite numbers, missing metadata, oversized batches, unknown ids) against a real single-node stack on disk, followed by a liveness probe and a restart that replays everything the requests left in the logs; every class is a distinct non-trivial case"
 	base := os.Getenv("VERIF_TMP")
 	if base == "" {
 		base = os.TempDir()
@@ -324,6 +326,18 @@ func childRpc(args []string) {
 			return report(err)
 		case "insert-existing-id":
 			_, err := n.dmSrv.Insert(ctx, &pb.InsertRequest{DatasetId: dsId.Bytes(), Id: rid(1).Bytes(), Value: amath.Vector{3, 3}})
+			return report(err)
+		case "insert-oversized-metadata":
+			_, err := n.dmSrv.Insert(ctx, &pb.InsertRequest{DatasetId: dsId.Bytes(), Id: rid(79).Bytes(), Value: amath.Vector{3, 3}, Metadata: map[string]string{strings.Repeat("k", 300): "v"}})
+			return report(err)
+		case "update-oversized-metadata":
+			_, err := n.dmSrv.Update(ctx, &pb.UpdateRequest{DatasetId: dsId.Bytes(), Id: rid(1).Bytes(), Value: amath.Vector{3, 3}, Metadata: map[string]string{"k": strings.Repeat("v", 70000)}})
+			if err == nil {
+				return "ok oversized update accepted"
+			}
+			if _, err2 := n.dmSrv.Update(ctx, &pb.UpdateRequest{DatasetId: dsId.Bytes(), Id: rid(1).Bytes(), Value: amath.Vector{4, 4}, Metadata: map[string]string{"k": "v"}}); err2 != nil {
+				return "ok the refused update removed the item: " + err2.Error()
+			}
 			return report(err)
 		case "remove-twice":
 			if _, err := n.dmSrv.Insert(ctx, &pb.InsertRequest{DatasetId: dsId.Bytes(), Id: rid(78).Bytes(), Value: amath.Vector{3, 3}}); err != nil {
